@@ -620,7 +620,7 @@ func GenEvolution(c *Ctx) error {
 		if err != nil {
 			return err
 		}
-		c.auditAgainstReference(nil, a, f, orig, genM)
+		c.auditAgainstReference(nil, a, f, orig, genM, nil)
 	}
 	for name, m := range genM {
 		b, _ := json.MarshalIndent(m, "", " ")
